@@ -5,6 +5,7 @@ One run = one fit() call under the RNG seam (shuffle, negative indices and
 every Gibbs draw served by the simulator), with the public per-batch method,
 the amplitude network's gibbs_steps, the optimizer and the scheduler recorded,
 witness callbacks, and an optional stop request."""
+import warnings
 from math import ceil
 
 from qsim import plan as P
@@ -24,9 +25,28 @@ def generate(seed, tier, prop):
         dcfg = P.gen_data_cfg(r, scfg, max_N=9 if not big else 12)
         epochs = r.randint(1, 3)
         ks = [0, 1, 1, 2, 3]
+    if prop == "C06" and scfg["type"] != "positive" and r.random() < 0.03:
+        # occasionally a wide system whose rows are rotated only on its last sites
+        scfg["nv"] = dcfg["nv"] = r.choice([40, 66])
+        scfg["nh"] = 1
+        scfg["scale"] = 0.1
+        scfg.pop("custom_unitary", None)
+        dcfg.pop("custom_unitary", None)
+        dcfg["basis_mode"] = "high_sites"
+        dcfg["N"] = min(dcfg["N"], 4)
+    many_settings = False
+    if prop == "C07" and r.random() < 0.0012:
+        # a long randomised-measurement record: tens of thousands of rows, (almost) all with distinct settings;
+        # only the batching is observed here (no gradient is computed for these runs)
+        many_settings = True
+        scfg = {"type": "complex", "nv": 17, "nh": 1, "scale": 0.1, "pseed": P.s64(r)}
+        dcfg = {"N": 70000, "nv": 17, "dseed": P.s64(r), "form": "tensor", "dup": False, "basis_mode": "all_random"}
+        epochs = 1
     N = dcfg["N"]
     pos, neg = P.gen_batching(r, N)
-    if r.random() < 0.05:
+    if many_settings:
+        pos, neg = 35000, r.choice([None, 3])
+    if r.random() < 0.05 and scfg["nv"] <= 4:
         # occasionally a dataset and batch sizes of realistic magnitude
         N = dcfg["N"] = r.choice([33, 64, 65, 130, 257])
         pos = r.choice([32, 64, 100, N])
@@ -63,16 +83,19 @@ def generate(seed, tier, prop):
             # "default": optimizer= not passed at all; "sgd_plain": the genuine torch.optim.SGD class is passed
             # (both observed only through callbacks); the others are recording subclasses of real optimizers
             "optimizer": r.choice(["sgd", "sgd", "sgd_args", "sgd_momentum", "adam", "default", "default", "sgd_plain"]) if prop == "C06" else r.choice(["sgd", "default"]),
-            "scheduler": r.choice([None, None, "step", "exp"]) if prop == "C06" else None,
+            "scheduler": r.choice([None, None, "step", "exp", "cyclic"]) if prop == "C06" else None,
             "gamma": r.choice([0.5, 0.9]),
             "rng_mode": r.choice(["honest", "honest", "rare"]),
             "perm_mode": r.choice(["honest", "honest", "honest", "identity", "reverse", "transpose"]),
             "randint_mode": r.choice(["honest", "honest", "honest", "allequal"]),
             # the reference-basis filter applied to a dataset of any size (the negative phase draws from its output)
-            "refbasis_direct": ({"N": r.choice([1, 7, 50, 4097, 32769, 40000, 70001]), "dseed": P.s64(r), "nv": r.randint(1, 3)} if (prop == "C07" and r.random() < 0.04) else None),
+            "refbasis_direct": ({"N": r.choice([1, 7, 50, 4097, 32769, 40000, 70001]), "dseed": P.s64(r), "nv": r.randint(1, 3)} if (prop == "C07" and r.random() < 0.04) else
+                                # thorough tier only: a record longer than 2**24 rows (0.5 GB for a few seconds)
+                                ({"N": 2 ** 24 + 401, "dseed": P.s64(r), "nv": 1} if (prop == "C07" and tier == "thorough" and r.random() < 0.0006) else None)),
             # a callback of this run trains ANOTHER model to completion in the middle of the run (two fits interleaved)
             "nested_fit": ({"at": r.randrange(1, max(2, total - 1)), "pseed": P.s64(r), "dseed": P.s64(r), "epochs": r.randint(1, 2)} if r.random() < 0.08 else None),
-            "second_fit": r.random() < 0.3,
+            "observe_batching_only": many_settings,
+            "second_fit": (r.random() < 0.3) and not many_settings,
             # what the caller does between the two training runs
             "between": r.choice(["none", "none", "reinit", "randomise", "refill_data", "swap_unitaries"]),
             "between_seed": P.s64(r),
@@ -235,7 +258,13 @@ def execute(plan, prop):
                     else:
                         # a freshly built object with the same parameters and unitaries: whatever the long-lived
                         # object remembers from its history must not make its gradients differ from this one's
-                        g = fresh_twin(state).gradient(samples_batch, bases=bases_batch)
+                        # ... evaluated ROW BY ROW, so that nothing depends on how a batch is grouped by basis
+                        tw = fresh_twin(state)
+                        g = None
+                        for ri_ in range(samples_batch.shape[0]):
+                            gi = tw.gradient(samples_batch[ri_ : ri_ + 1], bases=bases_batch[ri_ : ri_ + 1])
+                            gi = [x if isinstance(x, torch.Tensor) else torch.zeros(getattr(state, net).num_pars, dtype=torch.double) + float(x) for x, net in zip(gi, state.networks)]
+                            g = gi if g is None else [a_ + b_ for a_, b_ in zip(g, gi)]
                         ref["pos"] = [
                             (x.detach().numpy().astype(np.float64) / B) if isinstance(x, torch.Tensor) else np.zeros(getattr(state, net).num_pars) + float(x)
                             for x, net in zip(g, state.networks)
@@ -269,7 +298,7 @@ def execute(plan, prop):
 
             rng.listeners.append(rng_listener)
             rec = OptRecorder(run, state)
-            cap = BatchCapture(run, state, before_batch=before_batch, after_batch=after_batch)
+            cap = BatchCapture(run, state, before_batch=before_batch, after_batch=after_batch, call_through=not cfg.get("observe_batching_only"))
             opt_name = cfg.get("optimizer", "sgd")
             base_opt = {"sgd": torch.optim.SGD, "sgd_args": torch.optim.SGD, "sgd_momentum": torch.optim.SGD, "adam": torch.optim.Adam}.get(opt_name)
             opt_args = {"momentum": 0.5} if opt_name == "sgd_momentum" else (shared_opt_args if opt_name == "sgd_args" else None)
@@ -287,6 +316,21 @@ def execute(plan, prop):
                 sched, sargs = recording_scheduler(torch.optim.lr_scheduler.StepLR, rec), {"step_size": 1, "gamma": cfg["gamma"]}
             elif cfg.get("scheduler") == "exp":
                 sched, sargs = recording_scheduler(torch.optim.lr_scheduler.ExponentialLR, rec), {"gamma": cfg["gamma"]}
+            elif cfg.get("scheduler") == "cyclic":
+                sched, sargs = recording_scheduler(torch.optim.lr_scheduler.CyclicLR, rec), {"base_lr": tc["lr"] * 0.1, "max_lr": tc["lr"], "step_size_up": 2, "cycle_momentum": False}
+            base_sched = {"step": torch.optim.lr_scheduler.StepLR, "exp": torch.optim.lr_scheduler.ExponentialLR, "cyclic": torch.optim.lr_scheduler.CyclicLR}.get(cfg.get("scheduler"))
+            lr_plan = None
+            if base_sched is not None:
+                # what the learning rate is in each epoch when the genuine scheduler is advanced once per epoch
+                dummy = torch.optim.SGD([torch.zeros(1, requires_grad=True)], lr=tc["lr"])
+                with warnings.catch_warnings():
+                    warnings.simplefilter("ignore")
+                    ref_sched = base_sched(dummy, **sargs)
+                    lr_plan = []
+                    for _ in range(max(0, tc["epochs"] - tc["starting_epoch"] + 1)):
+                        lr_plan.append(float(dummy.param_groups[0]["lr"]))
+                        dummy.step()
+                        ref_sched.step()
             with cap:
                 info = run_fit(
                     run,
@@ -304,7 +348,7 @@ def execute(plan, prop):
                 )
             rng.listeners.remove(rng_listener)
             seamed = rng.check_global()
-            fits.append(dict(tc=tc, unchanged_after=data_unchanged(), data_np=data_np.copy(), bases_copy=None if bases_copy is None else bases_copy.copy(), cb_steps=cb_steps, final=params_snapshot(state), info=info, cap=cap, rec=rec, refs=refs, epoch_of_record=epoch_of_record, initial=initial, mutated=mutated, seamed=seamed, sched=sched, opt_name=opt_name, log_start=log_start, log_end=len(run.log.entries)))
+            fits.append(dict(lr_plan=lr_plan, tc=tc, unchanged_after=data_unchanged(), data_np=data_np.copy(), bases_copy=None if bases_copy is None else bases_copy.copy(), cb_steps=cb_steps, final=params_snapshot(state), info=info, cap=cap, rec=rec, refs=refs, epoch_of_record=epoch_of_record, initial=initial, mutated=mutated, seamed=seamed, sched=sched, opt_name=opt_name, log_start=log_start, log_end=len(run.log.entries)))
 
     if judge07 and cfg.get("refbasis_direct"):
         rd = cfg["refbasis_direct"]
@@ -514,8 +558,8 @@ def execute(plan, prop):
                     if st_["n_opt_params"] is not None and st_["n_opt_params"] != len(names):
                         run.violate("6-params", f"optimizer was given {st_['n_opt_params']} parameters, the state has {len(names)}")
                     # learning rate schedule
-                    if sched is not None and ep is not None:
-                        want_lr = lr0 * gamma ** (ep - tc["starting_epoch"])
+                    if sched is not None and ep is not None and F["lr_plan"] and 0 <= ep - tc["starting_epoch"] < len(F["lr_plan"]):
+                        want_lr = F["lr_plan"][ep - tc["starting_epoch"]]
                     else:
                         want_lr = lr0
                     if st_["lr"][0] is None:
